@@ -46,9 +46,9 @@ func c13(cx *Ctx, r *ev.Report) {
 	r.Check(len(det) == 0, "C13/check-every-cycle/func=(*CPU).Run", ruleC, pos, "shape", det...)
 
 	// (2) watcher protocol, if a watcher goroutine exists
-	ruleW := "WATCHER-PROTOCOL: the goroutine started by Run captures nothing rooted in the CPU; it waits on Done() of the derived context, then stores that context's/the parent's Err() into the error cell, then publishes with an atomic store of a non-zero flag - in that order, with no other blocking operation"
+	ruleW := "WATCHER-PROTOCOL: the goroutine started by Run captures nothing rooted in the CPU; it blocks once - on Done() of a context derived from the caller's, or in a select over the caller's Done() and quit channels made by the code -, then (only on the paths that saw the context done) stores that context's/the parent's Err() into the error cell, then publishes with an atomic store of a non-zero flag - in that order, with no other blocking operation"
 	ruleR := "RACE-FREE-HANDOFF: in Run every access to the flag cell is a sync/atomic call and every read of the error cell is dominated by the positive cancellation test (release/acquire through the atomic pair)"
-	ruleL := "NO-LEAK: the CancelFunc of the WithCancel call whose context the watcher waits on is deferred before the goroutine starts, and every return runs the deferred calls"
+	ruleL := "NO-LEAK: what ends the goroutine's wait - the CancelFunc of the WithCancel call whose context it waits on, or the close of a quit channel it selects on - happens on every return on which the goroutine was started (deferred before the goroutine starts, every return runs the deferred calls); a wait of Run for the goroutine's exit comes after that and is matched by a signal the goroutine gives on all its paths"
 	if sem := cx.runSem(); sem.err == nil {
 		// decided on the value summary: the goroutine (wherever it is started -
 		// in Run or in a helper Run calls) is interpreted on its own trace
@@ -57,14 +57,11 @@ func c13(cx *Ctx, r *ev.Report) {
 			r.Hold("C13/race-free-handoff/func=(*CPU).Run", ruleR+" (nothing shared)", pos, "value")
 			r.Hold("C13/no-leak/func=(*CPU).Run", ruleL+" (no goroutine)", pos, "value")
 		} else {
-			w := append([]string{}, sem.watch...)
-			sort.Strings(w)
+			w := uniqueStrings(append([]string{}, sem.watch...))
 			r.Check(len(w) == 0, "C13/watcher-protocol/func=(*CPU).Run", ruleW, pos, "value", w...)
-			w = append([]string{}, sem.race...)
-			sort.Strings(w)
+			w = uniqueStrings(append([]string{}, sem.race...))
 			r.Check(len(w) == 0, "C13/race-free-handoff/func=(*CPU).Run", ruleR, pos, "value", w...)
-			w = append([]string{}, sem.leak...)
-			sort.Strings(w)
+			w = uniqueStrings(append([]string{}, sem.leak...))
 			r.Check(len(w) == 0, "C13/no-leak/func=(*CPU).Run", ruleL, pos, "value", w...)
 		}
 	} else if ri.goInstr == nil {
